@@ -1,9 +1,35 @@
 """C07 - exactly one running client per live configured node (Manager.tla, Trace_Manager.tla)."""
+import vlib
+from props.common import role1, generate, harness
 from props.mgr import run_mgr
+
+
+def lifecycle_phase(ctx):
+    """The run/stop wrapper clients are grouped with (client/group.go, Lifecycle.tla): TLC checks that every member is
+    told to stop once, that Run returns after all members have ended with the first one's error, and that a started
+    Run terminates once the group is stopped or a member ends; every environment schedule (Stop before, while and
+    after Run, repeated; members ending on their own) is replayed on the real client.Group with scripted members,
+    quick ones and slow ones.  C07's last clause: stopping stops every client and returns."""
+    states, trans, detail = role1(ctx, [("Lifecycle", "MC_Lifecycle.cfg", {"timeout": 900})])
+    cases, n = generate(ctx, "MC_Lifecycle", "Gen_Lifecycle.cfg", name="lifecycle.jsonl", workers=1, timeout=900)
+    res = harness(ctx, vlib.build_vh(), ["group", "--cases", cases], timeout=900)
+    return states, trans, detail, res
 
 
 def run(ctx):
     cov, failures = run_mgr(ctx, "C07")
+    lstates, ltrans, ldetail, lres = lifecycle_phase(ctx)
+    cov["states"] += lstates
+    cov["transitions"] += ltrans
+    cov["role1"] = cov["role1"] + ldetail
+    cov["evaluations"] += lres["evaluations"]
+    if isinstance(cov.get("extra"), dict):
+        cov["extra"]["group_lifecycle"] = lres.get("extra")
+    for f in lres["failures"]:
+        if f["finding"].startswith("C07:"):
+            f = dict(f)
+            f["finding"] = f["finding"][4:]
+            failures.append(f)
     cov["rule"] = ("TLC checks Manager.tla (scan / notify / client-sees / exit, one action per critical section of manager.go) for "
                    "Quiesce and StopStopsAll under per-action weak fairness over all environment histories of the bound, and that "
                    "the as-coded early return of scan violates Quiesce. TLC-simulated environment schedules (create / mirror / "
@@ -14,7 +40,10 @@ def run(ctx):
                    "(start and acknowledgement). TLC validates every log against Trace_Manager.tla: a client is constructed only "
                    "for a placement that was live and only when no client object exists for it, Run enter/exit alternate per "
                    "placement, at every quiescence the running set equals the live placements and each client was built from the "
-                   "current children, after Stop every client exits and Run returns. evaluations = logged events.")
+                   "current children, after Stop every client exits and Run returns. evaluations = logged events. "
+                   "Run/stop groups (Lifecycle.tla): every schedule of Stop / Run / members ending on their own replayed on the "
+                   "real client.Group with scripted quick and slow members; outcome (returned, whose error, every member told once, "
+                   "no return before a member has ended) compared with the specification.")
     return {"coverage": cov, "failures": failures,
             "assumptions": ["the verif build makes the manager's one-minute rescan fire every 200 ms (hook verifScanTick)",
                             "quiescence = no client event for 1 s (5 scan ticks), bounded at 12 s"]}
